@@ -4,6 +4,6 @@ from dtcommon import run_dt
 
 def run(ctx):
     run_dt(ctx, "C04")
-    return ctx.finish(rule="U1: DataTypes.tla self-check (calendar against day counting, documented limits, multi-byte arithmetic); "
+    return ctx.finish(level="exploration", rule="evaluations = codec calls of the real library recorded and judged by TLC (Same); distinct_nontrivial = scenario groups (data type x kind of call) validated; " + "U1: DataTypes.tla self-check (calendar against day counting, documented limits, multi-byte arithmetic); "
                            "U3: one event per evaluation of the real codecs; TLC requires Same(type, value, value read back) for every round trip "
                            "through DataType.Bytes/GoValue and through a PARAMFMT/PARAMS pair")
